@@ -249,7 +249,7 @@ class Machine(Interp):
 
     def e_BoolOp(self, n, env):
         is_and = isinstance(n.op, ast.And)
-        if self.in_spec and not self.nofork:
+        if self.in_spec and not self.nofork and getattr(self, "spec_total", True):
             ok, r = self._try_total(lambda: self.e_BoolOp(n, env))
             if ok:
                 return r
@@ -281,7 +281,7 @@ class Machine(Interp):
         left = self.eval(n.left, env)
         if len(n.ops) == 1:
             return self.compare(n.ops[0], left, self.eval(n.comparators[0], env), n)
-        if self.in_spec and not self.nofork:
+        if self.in_spec and not self.nofork and getattr(self, "spec_total", True):
             ok, r = self._try_total(lambda: self.e_Compare(n, env))
             if ok:
                 return r
@@ -314,7 +314,7 @@ class Machine(Interp):
             a = self.eval(n.body, env)
             b = self.eval(n.orelse, env)
             return self.ite(c, a, b, n)
-        if self.in_spec:
+        if self.in_spec and getattr(self, "spec_total", True):
             ok, r = self._try_total(lambda: self.ite(c, self.eval(n.body, env), self.eval(n.orelse, env), n))
             if ok:
                 return r
